@@ -541,6 +541,11 @@ class ktensor:
             permutation, (tuple, list, np.ndarray)
         ):
             if len(permutation) == self.ncomponents:
+                if sorted(int(p) for p in permutation) != list(range(self.ncomponents)):
+                    assert False, (
+                        "permutation must be a permutation of the component numbers "
+                        "0, ..., ncomponents-1."
+                    )
                 self.weights = self.weights[permutation]
                 for i in range(self.ndims):
                     self.factor_matrices[i] = self.factor_matrices[i][:, permutation]
@@ -840,6 +845,8 @@ class ktensor:
             assert False, "other must be a ktensor"
         if self.shape != other.shape:
             assert False, "other must have the same shape as the ktensor"
+        if self.ncomponents != other.ncomponents:
+            assert False, "other must have the same number of components as the ktensor"
         # Makes typing happy https://github.com/python/mypy/issues/4805
         other_tensor = other.copy()
 
@@ -1592,6 +1599,8 @@ class ktensor:
         [[5. 6.]
          [7. 8.]]
         """
+        if mode not in range(self.ndims):
+            assert False, "Input parameter 'mode' must be in the range of self.ndims"
         for r in range(self.ncomponents):
             self.factor_matrices[mode][:, [r]] = (
                 self.factor_matrices[mode][:, [r]] * self.weights[r]
